@@ -1,8 +1,9 @@
 """C08  Non-linear and total least-squares fits obey the implicit-function rule.
 
 Sub-properties
-  ls        least_squares on smooth non-linear families (1-4 parameters, one- and two-dimensional abscissae, a
-            combined dictionary fit with a shared parameter, the straight line of fit_lin): the returned values
+  ls        least_squares on smooth non-linear families (1-4 parameters, one- and two-dimensional abscissae,
+            combined dictionary fits with shared parameters - two or three keys, abscissae x[key] of shape (N_key,) or
+            (2, N_key), any numbers of points per key -, the straight line of fit_lin): the returned values
             are a stationary point of the documented chi-square (uncorrelated / correlated with estimated or
             supplied inverse Cholesky factor / with priors), the reported chisquare and dof are those of that
             chi-square, and every fluctuation and covariance gradient of every parameter equals
@@ -11,7 +12,9 @@ Sub-properties
             out by RefObs.combine (alignment by configuration number, C01).
   tls       the same for total_least_squares: chi-square including the x-residual term, minimised over the
             parameters and the true abscissae (returned as xplus); sensitivities with respect to x and y data;
-            odr_chisquare and dof; fit_lin with observables as abscissae is exactly this fit.
+            odr_chisquare and dof; fit_lin with observables as abscissae is exactly this fit.  One case in four is in
+            the precision regime: relative errors of abscissae and ordinates both 1e-7 .. 1e-5, so that the x errors
+            carry a sizeable part of the parameter variance although they are tiny relative to |x|.
   fd        finite-difference response: one datum (y_i, x_i or an observable prior) is shifted by +-c*sigma_i,
             the fit is repeated, and the symmetric difference quotient of every parameter equals the predicted
             first-order amount S_ki (least_squares with Levenberg-Marquardt and total_least_squares).
@@ -32,8 +35,12 @@ PROPERTY = 'C08'
 LEVEL = 'exploration'
 RULE = ('Hypothesis-generated fit problems: model family from {exp(-m x), A exp(-m x), A exp(-m x)+c, A cosh(m(x-c)), '
         'A cosh(m(x-c))+d, (a+bx)/(1+cx), a exp(-b x1)+c x2, a exp(-b x1)+c x2+d x1 x2^2, a+bx (fit_lin), combined '
-        'dictionary fit with shared decay constant}, true parameters in a well-conditioned box, abscissae on a jittered '
-        'grid, data = model + noise of a few per mille + misfit of up to 3 sigma, each datum an observable on its own '
+        'dictionary fit with shared decay constant, combined dictionary fits of 2 or 3 different non-linear models with '
+        'two-dimensional abscissae (x[key] of shape (2, N_key)) and 1..n-1 points per key}, true parameters in a '
+        'well-conditioned box, abscissae on a jittered '
+        'grid, data = model + noise of a few per mille + misfit of up to 3 sigma (total least squares, one case in four: '
+        'noise of relative size 2e-7..1e-5 per configuration on abscissae and ordinates alike, labels precise / rel_dx / '
+        'x_share), each datum an observable on its own '
         'ensemble or on ensembles shared with other data (1-2 replicas; full / window / strided / irregular subsets of '
         'a base grid; noise correlated between data through a common chain aligned by configuration number); '
         'options: uncorrelated / correlated chi-square (estimated or supplied), priors as observables or strings '
@@ -50,9 +57,18 @@ ASSUMPTIONS = [
     'parameter resolution sqrt(2 (H^-1)_kk); allowed: 1e-4 Levenberg-Marquardt (MINPACK forward-difference Jacobian, '
     'measured <= 1.2e-6), 1e-4 Nelder-Mead / Powell (tol 1e-12 on chi2, measured <= 1e-6), 5e-3 migrad (EDM rule, '
     'measured <= 1e-4), 10*sqrt(1.5e-8*chi2) ODR (sstol = sqrt(eps) on the sum of squares, measured <= 4e-5)',
+    'the yardstick of the stationarity judgement (resolution, Newton step) exists only where the Hessian is positive definite, '
+    'and only there the per-parameter criterion follows from the stopping rule of ODR ((step_k/res_k)^2 <= 1/2 g^T H^-1 g, the '
+    'predicted decrease of chi2, by Cauchy-Schwarz): a total least-squares fit started far away or from the default start that '
+    'stops with a legitimate "sum of squares convergence" next to a saddle point (A cosh(m(x-c)) at m = 0, chi2 ~ 1e4) has an '
+    'indefinite Hessian and is counted as skipped',
     'fluctuations: both sides evaluate the same formula at the same point, so only the rounding of the linear solve '
     '(eps * cond(H), measured <= 40 eps cond) or the accuracy of numdifftools (measured <= 1.5e-11 * cond) enters: '
     'tolerance (1e-9 + 1e-13 cond(H)) of the largest term of the sum with autograd, (1e-7 + 1e-9 cond(H)) with num_grad',
+    'data with relative noise of 1e-7: the fluctuations sample - mean are defined up to the rounding of the mean, so the '
+    'tolerance of the fluctuations of a total least-squares fit has the floor 16 eps sum_j |S_kj| |datum_j| (measured <= 1 eps '
+    'sum_j ...), and odr_chisquare is compared within 1e-8 chi2 + 2 sqrt(chi2) * 4 eps * |datum / error| (rounding of the '
+    'residuals, measured <= 0.07 of that)',
     'finite-difference response: symmetric quotients with shifts c and c/2 sigma (c = 0.05-0.2) combined by one Richardson '
     'step (removes the third-order term of the response); tolerance (1e-3 + 10 t^2) of the largest whitened sensitivity of '
     'the parameter, t = measured relative third-order part (cases with t > 1e-2 are skipped as not in the linear regime), '
@@ -63,7 +79,27 @@ ASSUMPTIONS = [
     'cases where this exceeds 1e-2 are skipped)',
 ]
 
-LS_FAMILIES = ['exp1', 'exp', 'exp', 'expc', 'cosh', 'rational', 'coshc', 'twod', 'twod4', 'lin', 'cmb']
+# combined (dictionary) fits whose members have a two-dimensional abscissa, x[key] of shape (2, N_key): the members are
+# registered here next to the families of vlib/fit08.py (same form: formula over a namespace, box, abscissa ranges) and go
+# through the same self-check of the jets against central differences
+F.MODELS.update({
+    # two keys, four parameters: shared decay constant p[0] and shared slope p[3] in the second abscissa, one amplitude each
+    'cmb2_a': dict(npar=4, xdim=2, f=lambda p, x, m: p[1] * m.exp(-p[0] * x[0]) * (1.0 + p[3] * x[1]),
+                   box=[(0.2, 1.0), (0.5, 3.0), (0.5, 3.0), (0.2, 0.8)], xr=[(0.0, 3.0), (-1.0, 1.0)]),
+    'cmb2_b': dict(npar=4, xdim=2, f=lambda p, x, m: p[2] / (1.0 + p[0] * x[0] * x[0]) * (1.0 + p[3] * x[1]),
+                   box=[(0.2, 1.0), (0.5, 3.0), (0.5, 3.0), (0.2, 0.8)], xr=[(0.0, 3.0), (-1.0, 1.0)]),
+    # three keys, three parameters, all shared
+    'cmb3_a': dict(npar=3, xdim=2, f=lambda p, x, m: p[0] * m.exp(-p[1] * x[0]) + p[2] * x[1],
+                   box=[(0.5, 3.0), (0.3, 1.0), (0.3, 2.0)], xr=[(0.0, 3.0), (-1.0, 2.0)]),
+    'cmb3_b': dict(npar=3, xdim=2, f=lambda p, x, m: p[0] * m.exp(-p[1] * x[0]) * (1.0 + p[2] * x[1] * x[1]),
+                   box=[(0.5, 3.0), (0.3, 1.0), (0.3, 2.0)], xr=[(0.0, 3.0), (-1.0, 2.0)]),
+    'cmb3_c': dict(npar=3, xdim=2, f=lambda p, x, m: (p[0] + p[2] * x[1]) / (1.0 + p[1] * x[0]),
+                   box=[(0.5, 3.0), (0.3, 1.0), (0.3, 2.0)], xr=[(0.0, 3.0), (-1.0, 2.0)]),
+})
+F.COMBINED.update({'cmb2': {'a': 'cmb2_a', 'b': 'cmb2_b'}, 'cmb3': {'a': 'cmb3_a', 'b': 'cmb3_b', 'c': 'cmb3_c'}})
+F._selfcheck()
+
+LS_FAMILIES = ['exp1', 'exp', 'exp', 'expc', 'cosh', 'rational', 'coshc', 'twod', 'twod4', 'lin', 'cmb', 'cmb2', 'cmb3']
 TLS_FAMILIES = ['exp1', 'exp', 'exp', 'expc', 'cosh', 'rational', 'coshc', 'twod', 'twod4', 'lin', 'lin']
 COND_MAX = 1e7
 fl = gen.fl
@@ -187,15 +223,23 @@ def fit_case(draw, tier, kind, fd=False, negligible_x=False):
     nlo = npar + 1 + (1 if (members or npar >= 4) else 0)
     n = draw(st.integers(nlo, max(nlo, nmax)))
     if members:
-        na = draw(st.integers(2, n - 2)) if n >= 4 else 2
-        groups = ['a'] * na + ['b'] * (n - na)
+        # numbers of points per key: any composition of n (the one-dimensional pair keeps at least two points per key, the
+        # members with a two-dimensional abscissa at least one)
+        keys = sorted(members)
+        kmin = 2 if fam == 'cmb' else 1
+        sizes, rest = [], n
+        for j in range(len(keys) - 1):
+            sz = draw(st.integers(kmin, rest - kmin * (len(keys) - 1 - j)))
+            sizes.append(sz)
+            rest -= sz
+        sizes.append(rest)
+        groups = [k for k, sz in zip(keys, sizes) for _ in range(sz)]
     else:
         groups = [''] * n
     x_int = kind == 'ls' and fam == 'lin' and draw(st.booleans())
     if members:
-        xa = draw(abscissae(members['a'], groups.count('a')))
-        xb = draw(abscissae(members['b'], groups.count('b')))
-        xs = [xa[0] + xb[0]]
+        parts = [draw(abscissae(members[k], sz)) for k, sz in zip(keys, sizes)]
+        xs = [[v for pt in parts for v in pt[d]] for d in range(M['xdim'])]
     else:
         xs = draw(abscissae(fam, n, ints=x_int))
 
@@ -218,12 +262,19 @@ def fit_case(draw, tier, kind, fd=False, negligible_x=False):
         names = draw(st.lists(st.sampled_from(gen.ENSEMBLES), min_size=k, max_size=k, unique=True))
         bases = [draw(ens_base(nm, lmin, lmx)) for nm in names]
         assign = [draw(st.integers(0, k - 1)) for _ in range(n)]
+    # ---- precision regime (total least squares): relative errors of abscissae and ordinates both tiny and of the same order,
+    # so that the x errors carry a sizeable part of the parameter variance although dx/|x| is 1e-7 .. 1e-5
+    precise = None
+    if kind == 'tls' and not fd and not negligible_x and draw(st.integers(0, 3)) == 0:
+        # u: relative noise per configuration (the errors of the means are smaller by the square root of the chain length);
+        # yx: size of the relative y errors in units of the relative x errors
+        precise = {'u': draw(st.sampled_from([2e-7, 5e-7, 1e-6, 3e-6, 1e-5])), 'yx': draw(st.sampled_from([0.3, 1.0, 1.0, 3.0]))}
     ypts = []
     # estimated correlation matrix: now and then the data points live on windows of equal length but different position
     # (equally many, not the same configurations)
     shifted = corr == 'est' and all(len(b) == 1 for b in bases) and draw(st.integers(0, 2)) == 0
     for i in range(n):
-        rel = draw(fl(0.005, 0.05))
+        rel = draw(fl(0.005, 0.05)) if precise is None else precise['u'] * precise['yx'] * draw(fl(0.5, 2.0))
         sigma = rel * max(abs(fv[i]), 0.2 * fscale)
         rule_i = None
         if shifted:
@@ -236,6 +287,8 @@ def fit_case(draw, tier, kind, fd=False, negligible_x=False):
         off = draw(fl(-3.0, 3.0))
         ypts.append({'mean': fv[i] + off * sigma / math.sqrt(N), 'chains': ch})
     spec = {'kind': kind, 'family': fam, 'ptrue': ptrue, 'x': xs, 'groups': groups, 'y': ypts, 'layout': mode}
+    if precise is not None:
+        spec['precise'] = precise
 
     # ---- abscissae as observables
     if kind == 'tls':
@@ -246,6 +299,8 @@ def fit_case(draw, tier, kind, fd=False, negligible_x=False):
             for i in range(n):
                 if negligible_x:
                     sx = 1e-6 * ypts[i]['chains'][0]['sigma']
+                elif precise is not None:
+                    sx = precise['u'] * draw(fl(0.5, 2.0)) * max(abs(xs[d][i]), 1e-3 * (hi - lo))
                 else:
                     sx = draw(fl(0.005, 0.06)) * (hi - lo) / n * 2.0
                 how = draw(st.sampled_from(['own', 'own', 'with_y']))
@@ -315,7 +370,7 @@ def fit_case(draw, tier, kind, fd=False, negligible_x=False):
     easy = fam in ('exp1', 'exp', 'lin')
     opts['guess'] = 'default' if (easy and not fd and draw(st.integers(0, 2)) == 0) else 'near'
     opts['guess_fac'] = [draw(fl(0.93, 1.07)) for _ in range(npar)]
-    if kind == 'tls' and not fd and not negligible_x and fam != 'rational' and draw(st.integers(0, 6)) == 0:
+    if kind == 'tls' and not fd and not negligible_x and precise is None and fam != 'rational' and draw(st.integers(0, 6)) == 0:
         # (not the rational family: a far start puts its pole into the data range - outside the 'well-conditioned regions' of the statement)
         # a start far from the solution: the fit may legitimately give up (not judged), but whatever it returns as a
         # result has to be a stationary point of the documented chi-square
@@ -474,7 +529,7 @@ def run_ls(c, W_kw=None):
     if o['num_grad']:
         kw['num_grad'] = True
     if c.members:
-        keys = ['a', 'b']
+        keys = sorted(c.members)
         order = keys[::-1] if o.get('dict_rev') else keys
         xd, yd, fd_ = {}, {}, {}
         for k in order:
@@ -575,9 +630,17 @@ def stat_tol(method, chi2):
     return STAT_TOL[method]
 
 
-def judge_stationarity(what, method, g, H, newton, cond, npar, chi2):
+def judge_stationarity(what, method, g, H, newton, cond, npar, chi2, far=False):
     if newton is None or cond > COND_MAX:
         raise Skip('solution with ill-conditioned Hessian')
+    if far:
+        # (starts not known to lie in the basin of the minimum: 'far' and the default start)
+        # a fit started far from the solution may stop in the flat neighbourhood of a saddle point (e.g. A cosh(m(x-c)) at
+        # m = 0 with the wrong sign of A): the Hessian is indefinite there, sqrt(2 |H^-1_kk|) is not a resolution and the
+        # Newton step is not a distance to a minimum - the yardstick of this judgement does not exist
+        D = 1.0 / np.sqrt(np.diag(H))
+        if float(np.min(np.linalg.eigvalsh(H * np.outer(D, D)))) <= 0.0:
+            raise Skip('start outside the basin: stopped where the Hessian is indefinite')
     res = F.resolution(H)
     ratio = np.abs(newton) / res
     tol = stat_tol(method, chi2)
@@ -593,23 +656,31 @@ def judge_stationarity(what, method, g, H, newton, cond, npar, chi2):
     trace(stat=float(np.max(ratio)), method=method, cond=cond)
 
 
-def judge_fluctuations(what, params, pvals, S, H, operands, sig, cond, num_grad):
+def judge_fluctuations(what, params, pvals, S, H, operands, sig, cond, num_grad, absval=None):
     """fluctuations of parameter k = sum_j S_kj * fluctuations of datum j (RefObs.combine).  The tolerance is relative
-    to the largest term of the sum: a datum to which a parameter is (nearly) insensitive contributes rounding noise."""
+    to the largest term of the sum: a datum to which a parameter is (nearly) insensitive contributes rounding noise.
+    absval: magnitudes of the data.  The fluctuations of a datum are differences sample - mean of numbers of that
+    magnitude, so they are only defined up to a few units of rounding of the datum itself (the mean is summed in a
+    different order here and in the library); this matters for data with relative noise of 1e-7 per configuration."""
     condu = max(cond, float(np.linalg.cond(H)))     # the library solves the unscaled system
     if condu > 1e9:
         raise Skip('solution with ill-conditioned Hessian')
-    tol = (1e-7 + 1e-9 * condu) if num_grad else (1e-9 + 1e-13 * condu)
+    tol0 = (1e-7 + 1e-9 * condu) if num_grad else (1e-9 + 1e-13 * condu)
     for k, o in enumerate(params):
         pk = float(pvals[k])
         ref = combine(lambda v, pk=pk: pk, list(S[k]), operands, value=pk)
         big = max(list(ref.mag.values()) + [0.0])
+        tol = tol0
+        if absval is not None and big > 0.0:
+            tol = tol0 + 16.0 * np.finfo(float).eps * float(np.sum(np.abs(S[k]) * np.asarray(absval))) / big
         white = float(np.max(np.abs(S[k] * sig)))
         if TRACE is not None:
             for n in ref.d:
                 if n in o.deltas and len(o.deltas[n]) == len(ref.d[n]):
                     a = np.array([ref.d[n][cf] for cf in sorted(ref.d[n])])
-                    trace(fluct=float(np.max(np.abs(a - o.deltas[n])) / big), num_grad=num_grad, cond=cond)
+                    trace(fluct=float(np.max(np.abs(a - o.deltas[n])) / big), num_grad=num_grad, cond=cond,
+                          fluct_tol=float(np.max(np.abs(a - o.deltas[n])) / big / tol), fluct_tol0=float(np.max(np.abs(a - o.deltas[n])) / big / tol0),
+                          fluct_floor=float(np.max(np.abs(a - o.deltas[n])) / big / max(tol - tol0, 1e-300) * 16.0))
         ref.mag = {n: big for n in ref.mag}
         # gradient with respect to a covariance input (string prior) of error e: same whitened scale
         ref.cgmag = {n: white / math.sqrt(float(cv[0][0, 0])) for n, cv in ref.cg.items()}
@@ -626,6 +697,12 @@ def labels(c):
     labs = {'family:' + c.fam, 'npar:%d' % c.npar, 'layout:' + c.spec['layout'], 'corr:%s' % o['corr'] + (':smooth' if o.get('smooth') else ''),
             'method:' + (o['method'] if c.kind == 'ls' else 'ODR'), 'guess:' + o['guess'],
             'num_grad' if o['num_grad'] else 'autograd', 'xdim:%d' % len(c.xs)}
+    if c.members:
+        sizes = [c.groups.count(k) for k in sorted(c.members)]
+        labs.add('combined:%d keys, xdim %d' % (len(sizes), len(c.xs)))
+        labs.add('combined:key_sizes_' + ('equal' if len(set(sizes)) == 1 else 'differ'))
+        if len(c.xs) > 1 and any(sz != len(c.xs) for sz in sizes[:-1]):
+            labs.add('combined:points_per_key!=xdim')
     pts = list(c.spec['y'])
     if c.kind == 'tls':
         pts += [p for row in c.spec['xobs'] for p in row]
@@ -746,17 +823,28 @@ def judge_tls(c, res, fluct=True):
     xplus = np.asarray(res.xplus, dtype=float)
     require(xplus.shape == ((c.n,) if nd == 1 else (nd, c.n)), 'shape of xplus', xplus.shape)
     chi, g, H, S, newton, cond = tls_reference(c, pvals, xplus)
-    judge_stationarity('total_least_squares', 'ODR', g, H, newton, cond, c.npar, chi.v)
-    require(abs(res.odr_chisquare - chi.v) <= 1e-8 * abs(chi.v) + 1e-10,
-            'reported odr_chisquare %r is not the documented chi-square (with x-residual term) at the returned values, %r' % (res.odr_chisquare, chi.v))
-    require(res.dof == c.n - c.npar, 'dof is %r, data points - parameters = %d' % (res.dof, c.n - c.npar))
+    judge_stationarity('total_least_squares', 'ODR', g, H, newton, cond, c.npar, chi.v, far=c.spec['opts']['guess'] != 'near')
     ops = [r for row in c.xref for r in row] + c.yref
     sig = np.array([o.dvalue for row in c.xo for o in row] + [o.dvalue for o in c.y])
+    val = np.array([abs(o.value) for row in c.xo for o in row] + [abs(o.value) for o in c.y])
+    # every residual (datum - model) / error is a difference of numbers of the magnitude of the datum and carries a rounding
+    # error of a few eps * |datum| / error (1e-8 for data with relative errors of 1e-7); chi2 = sum r^2 then differs between two
+    # evaluations by up to 2 sum |r_i| d_i <= 2 sqrt(chi2) |d|
+    chi_tol = 1e-8 * abs(chi.v) + 1e-10 + 2.0 * math.sqrt(abs(chi.v)) * 4.0 * np.finfo(float).eps * float(np.linalg.norm(val / sig))
+    trace(chi_dev=abs(res.odr_chisquare - chi.v) / chi_tol)
+    require(abs(res.odr_chisquare - chi.v) <= chi_tol,
+            'reported odr_chisquare %r is not the documented chi-square (with x-residual term) at the returned values, %r' % (res.odr_chisquare, chi.v))
+    require(res.dof == c.n - c.npar, 'dof is %r, data points - parameters = %d' % (res.dof, c.n - c.npar))
     if fluct:
-        judge_fluctuations('total_least_squares', res.fit_parameters, pvals, S, H, ops, sig, cond, c.spec['opts']['num_grad'])
+        judge_fluctuations('total_least_squares', res.fit_parameters, pvals, S, H, ops, sig, cond, c.spec['opts']['num_grad'], absval=val)
     j = Judged()
     j.pvals, j.S, j.H, j.newton = np.array(pvals), S, H, newton
     j.sig = sig
+    # measured: largest relative x error, and the largest share of the x errors in the variance of a parameter (data taken as uncorrelated)
+    m = nd * c.n
+    j.rel_dx = float(np.max(sig[:m] / np.maximum(val[:m], 1e-300)))
+    w2 = (S * sig) ** 2
+    j.x_share = float(np.max(np.sum(w2[:, :m], axis=1) / np.maximum(np.sum(w2, axis=1), 1e-300)))
     return j
 
 
@@ -764,8 +852,11 @@ def tls_oracle(spec):
     import pyerrors as pe
     c = build(spec)
     res = run_tls(c)
-    judge_tls(c, res)
+    j = judge_tls(c, res)
     nt, labs = labels(c)
+    labs.append('rel_dx:' + ('<1e-6' if j.rel_dx < 1e-6 else '<1e-4' if j.rel_dx < 1e-4 else '>=1e-4') + (', x_share>0.2' if j.x_share > 0.2 else ''))
+    if spec.get('precise'):
+        labs.append('precise')
     if c.fam == 'lin':
         kw2 = {}
         if guess(c) is not None:
